@@ -655,7 +655,7 @@ fn f32_vs_f64(ctx: &Ctx, report: &mut Report) {
                         "f32_differs_from_f64:hsl_white_overshoot"
                     } else if (matches!(dst, Space::Hsluv(_)) && want[2] > 100.0 - 1e-3) || (matches!(src, Space::Hsluv(_)) && x[2] > 100.0 - 1e-3) {
                         "f32_differs_from_f64:hsluv_no_guard_at_white"
-                    } else if matches!(dst, Space::Okhsl) && (g64[2] >= 1.0 - 1e-5 || g64[2] <= 5e-3) && d <= 2e-2 {
+                    } else if matches!(dst, Space::Okhsl) && (g64[2] >= 1.0 - 1e-5 || (g64[2] <= 5e-3 && d <= 2e-2)) {
                         // maximum chroma ~ (1 - L) or ~ L vanishes: f32 cannot hold the quotient
                         "f32_differs_from_f64:okhsl_saturation_at_white_or_black"
                     } else {
